@@ -40,19 +40,63 @@ theorem JobFrame.ite (p : Job → Bool) {F : Job → Job} (hF : JobFrame F) :
   intro x; by_cases h : p x <;> simp [h]
   exact hF x
 
+def jobKey (x : Job) : Nat × Nat := (x.batch, x.id)
+
+/-- (batch_id, job_id) is a key of `jobs` -/
+def JobsUnique (s : State) : Prop := (s.jobs.map jobKey).Nodup
+
+theorem jobKey_frame {F : Job → Job} (hF : JobFrame F) (l : List Job) : (l.map F).map jobKey = l.map jobKey := by
+  simp only [List.map_map]
+  apply List.map_congr_left
+  intro x _
+  simp [jobKey, (hF x).1, (hF x).2.1]
+
+theorem jobsUnique_of_map {s s' : State} {F : Job → Job} (hF : JobFrame F) (e : s'.jobs = s.jobs.map F)
+    (h : JobsUnique s) : JobsUnique s' := by
+  unfold JobsUnique at *; rw [e, jobKey_frame hF]; exact h
+
+theorem JobsUnique.of_jobs_eq {s s' : State} (e : s'.jobs = s.jobs) (h : JobsUnique s) : JobsUnique s' := by
+  unfold JobsUnique at *; rw [e]; exact h
+
+theorem jobsUnique_append (s : State) (b : Nat) (js : List Job) (hb : ∀ x ∈ js, x.batch = b)
+    (hfresh : ∀ x ∈ js, findJob s b x.id = none) (hnd : (js.map (·.id)).Nodup) (h : JobsUnique s) :
+    ((s.jobs ++ js).map jobKey).Nodup := by
+  unfold JobsUnique at h
+  rw [List.map_append, List.nodup_append]
+  refine ⟨h, ?_, ?_⟩
+  · -- the new keys are pairwise distinct: same batch, distinct ids
+    have : js.map jobKey = (js.map (·.id)).map (fun i => (b, i)) := by
+      rw [List.map_map]; apply List.map_congr_left; intro x hx; simp [jobKey, hb x hx]
+    rw [this]
+    exact List.Pairwise.map _ (fun i j hij h => hij (by simpa using h)) hnd
+  · intro k hk1 k' hk2 hkk
+    subst hkk
+    rw [List.mem_map] at hk1 hk2
+    obtain ⟨y, hy, rfl⟩ := hk1
+    obtain ⟨x, hx, hxe⟩ := hk2
+    have hnone := hfresh x hx
+    unfold findJob at hnone
+    rw [List.find?_eq_none] at hnone
+    have := hnone y hy
+    simp only [jobKey, Prod.mk.injEq] at hxe
+    apply this
+    simp [← hxe.1, ← hxe.2, hb x hx]
+
 /-- what a transaction may do to the three tables -/
 structure Shape (s s' : State) : Prop where
   groups : ∃ F new, GroupFrame F ∧ s'.groups = s.groups.map F ++ new
   cancelled : ∃ new, s'.cancelled = s.cancelled ++ new
   jobs : ∃ F new, JobFrame F ∧ s'.jobs = s.jobs.map F ++ new
+  unique : JobsUnique s → JobsUnique s'
 
 theorem Shape.refl (s : State) : Shape s s :=
-  ⟨⟨id, [], GroupFrame.id, by simp⟩, ⟨[], by simp⟩, ⟨id, [], JobFrame.id, by simp⟩⟩
+  ⟨⟨id, [], GroupFrame.id, by simp⟩, ⟨[], by simp⟩, ⟨id, [], JobFrame.id, by simp⟩, fun h => h⟩
 
 theorem Shape.trans {a b c : State} (h1 : Shape a b) (h2 : Shape b c) : Shape a c := by
-  obtain ⟨⟨F1, n1, hF1, e1⟩, ⟨c1, ec1⟩, ⟨J1, m1, hJ1, j1⟩⟩ := h1
-  obtain ⟨⟨F2, n2, hF2, e2⟩, ⟨c2, ec2⟩, ⟨J2, m2, hJ2, j2⟩⟩ := h2
-  refine ⟨⟨F2 ∘ F1, n1.map F2 ++ n2, hF1.comp hF2, ?_⟩, ⟨c1 ++ c2, ?_⟩, ⟨J2 ∘ J1, m1.map J2 ++ m2, hJ1.comp hJ2, ?_⟩⟩
+  obtain ⟨⟨F1, n1, hF1, e1⟩, ⟨c1, ec1⟩, ⟨J1, m1, hJ1, j1⟩, u1⟩ := h1
+  obtain ⟨⟨F2, n2, hF2, e2⟩, ⟨c2, ec2⟩, ⟨J2, m2, hJ2, j2⟩, u2⟩ := h2
+  refine ⟨⟨F2 ∘ F1, n1.map F2 ++ n2, hF1.comp hF2, ?_⟩, ⟨c1 ++ c2, ?_⟩, ⟨J2 ∘ J1, m1.map J2 ++ m2, hJ1.comp hJ2, ?_⟩,
+    fun h => u2 (u1 h)⟩
   · rw [e2, e1]; simp [List.map_append, List.map_map]
   · rw [ec2, ec1]; simp
   · rw [j2, j1]; simp [List.map_append, List.map_map]
@@ -60,12 +104,13 @@ theorem Shape.trans {a b c : State} (h1 : Shape a b) (h2 : Shape b c) : Shape a 
 /-- a state that differs from `s` in none of the three tables -/
 theorem Shape.of_eq {s s' : State} (hg : s'.groups = s.groups) (hc : s'.cancelled = s.cancelled) (hj : s'.jobs = s.jobs) :
     Shape s s' :=
-  ⟨⟨id, [], GroupFrame.id, by simp [hg]⟩, ⟨[], by simp [hc]⟩, ⟨id, [], JobFrame.id, by simp [hj]⟩⟩
+  ⟨⟨id, [], GroupFrame.id, by simp [hg]⟩, ⟨[], by simp [hc]⟩, ⟨id, [], JobFrame.id, by simp [hj]⟩, JobsUnique.of_jobs_eq hj⟩
 
 theorem shape_updateJobs (s : State) (p : Job → Bool) (f : Job → Job) (hf : JobFrame f) :
     Shape s (updateJobs s p f) :=
   ⟨⟨id, [], GroupFrame.id, by simp⟩, ⟨[], by simp⟩,
-   ⟨fun j => if p j then f j else j, [], JobFrame.ite p hf, by simp [updateJobs_jobs]⟩⟩
+   ⟨fun j => if p j then f j else j, [], JobFrame.ite p hf, by simp [updateJobs_jobs]⟩,
+   jobsUnique_of_map (JobFrame.ite p hf) (updateJobs_jobs s p f)⟩
 
 theorem shape_updateAttempts (s : State) (d : Nat) (p : Attempt → Bool)
     (f : Generated.AttemptsTrigger.Row → Generated.AttemptsTrigger.Row) : Shape s (updateAttempts s d p f) :=
